@@ -22,7 +22,7 @@ ASSUMPTIONS = ['parameters admissible for their mnemonic (radii > 0, non-colline
 def plan(tier):
     q = tier == 'quick'
     return [('probe', 360 if q else 7000, {}), ('mixed', 80 if q else 1500, {}),
-            ('surfmodel', 700 if q else 20000, {})]
+            ('surfmodel', 700 if q else 20000, {}), ('oblique', 150 if q else 3000, {})]
 
 
 def search_plan(tier, disagreements):
@@ -113,8 +113,20 @@ def run_case(stream, seed, ctx, params):
     rng = random.Random(seed)
     if stream == 'surfmodel':
         return surfmodel_case(seed, rng, ctx)
+    if stream == 'oblique':
+        # the general TRIPOLI-4 types (PLANE, CYL, CONE, tilted TORUS) are only emitted for a surface whose frame is
+        # oblique: one card on a TR card with a generic or Pythagorean rotation (axis components of mixed signs)
+        kind = rng.choice(['cx', 'cy', 'cz', 'c/x', 'c/y', 'c/z', 'kx', 'ky', 'kz', 'k/x', 'k/y', 'k/z', 'k/z1', 'kx1',
+                           'px', 'py', 'pz', 'p', 'tx', 'ty', 'tz'])
+        mn, ps = G.elementary(rng, [kind])
+        m, cls = G.random_motion(rng, rng.choice(['generic', 'generic', 'pyth']))
+        d = P.probe_deck(mn, ps, tr=m, trnum=7)
+        d.trs[7] = (m, {'star': False, 'cls': cls})
+        return run_deck(ctx, stream, d, [], rng, npts=250, extra_sig={'mnemonic': mn, 'rot': cls})
     if stream == 'mixed':
-        d = G.build_flat_deck(rng, macro_p=0.0, tr_p=0.0, nsurf=rng.randint(2, 5))
+        # a third of the decks put surfaces on TR cards: the general TRIPOLI-4 types (PLANE, CYL, CONE, tilted tori) are
+        # only emitted for surfaces whose frame is oblique
+        d = G.build_flat_deck(rng, macro_p=0.0, tr_p=0.5 if rng.random() < 0.35 else 0.0, nsurf=rng.randint(2, 5))
         return run_deck(ctx, stream, d, [], rng, npts=200)
     kind = P.ELEMENTARY[seed % len(P.ELEMENTARY)]
     if kind == 'p3' and rng.random() < 0.5:
